@@ -196,7 +196,88 @@ def _finish_returns(t, top):
                 return ("closure", n[1], n[2], nb)
         return None
     t = rewrite(t, clo)
-    return conv(t) if top else t
+    return _push_ctor(conv(t)) if top else t
+
+
+def _push_ctor(t):
+    """as the result of a function:  Some(match x { A => a, _ => return None })   ==   match x { A => Some(a), _ => None }"""
+    if t[0] == "call" and t[1] in ("Some", "Ok") and len(t[2]) == 1:
+        m = _push_ctor(t[2][0])
+        if m[0] == "match" and any(_rets(b) for _p, _g, b in m[2]) and all(g is None for _p, g, _b in m[2]):
+            return ("match", m[1], [(p, g, _unreturn(b) if _rets(b) else b if _diverges(b) else ("call", t[1], [b])) for p, g, b in m[2]])
+    return t
+
+
+def _has_ret(t):
+    """a `return` that belongs to the function the term is the body of (not to a closure inside it)"""
+    return any(x[0] == "ret" for x in subterms(t, closures=False))
+
+
+def _subterms_outside_closures(t):
+    stack = [t]
+    while stack:
+        x = stack.pop()
+        yield x
+        if x[0] == "closure":
+            continue
+        for c in _direct_children(x):
+            stack.append(c)
+
+
+def _direct_children(t):
+    k = t[0]
+    if k in ("field", "proj", "elem", "try", "rest", "ret", "break", "repeat"):
+        return [t[1]]
+    if k == "for":
+        return [t[1], t[2]]
+    if k == "seq":
+        return list(t[1]) + [t[2]]
+    if k == "call":
+        return list(t[2])
+    if k == "closure":
+        return [t[3]]
+    if k == "struct":
+        return list(t[3].values()) if t[3] else []
+    if k in ("tup", "array"):
+        return list(t[1])
+    if k == "mut":
+        out = [t[2]]
+        for e in t[3]:
+            for x in e[:-1]:
+                if isinstance(x, tuple) and x and isinstance(x[0], str) and x[0] in _KINDS:
+                    out.append(x)
+                elif isinstance(x, list):
+                    out.extend(y for y in x if isinstance(y, tuple))
+        return out
+    if k == "match":
+        out = [t[1]]
+        for p, g, b in t[2]:
+            if g:
+                out.append(g)
+            out.append(b)
+        return out
+    if k == "if":
+        return [t[1], t[2], t[3]]
+    if k in ("iflet", "iflet-not"):
+        return [t[2]]
+    if k == "early":
+        out = []
+        for c, v in t[1]:
+            out.extend([c, v])
+        return out + [t[2]]
+    if k == "tpl":
+        return list(t[3])
+    if k == "fmt":
+        return [p[2] for p in t[1] if p[0] == "arg"]
+    if k == "op":
+        return list(t[2])
+    if k == "cast":
+        return [t[2]]
+    if k == "index":
+        return [t[1], t[2]]
+    if k == "rindex":
+        return [t[1]]
+    return []
 
 
 def _float(t, top=False):
@@ -1270,7 +1351,10 @@ class Norm:
             if n[0] == "closure" and shift:
                 return ("closure", n[1] + shift, n[2], n[3])
             return None
-        return _unreturn(rewrite(t, subst))
+        r = _unreturn(rewrite(t, subst))
+        if _has_ret(r):
+            return None          # a `return` of the helper that is not in tail position would read as a return of the caller
+        return r
 
     def _is_mut_local_effect(self, node):
         """statement already represented as an effect inside the term of a `mut` local
@@ -1912,6 +1996,12 @@ def _mk_iflet(pat, scr, then, els):
         return ("call", "ok_or", [scr, els[2][0]])
     if _diverges(then) and _is_unit(els):
         return ("early", [(_let(pat, scr), then)], ("lit", "()"))
+    if pat in ("v1::Some($)", "Option::Some($)") and scr[0] == "match" and all(g is None for _p, g, _b in scr[2]) \
+            and all(b == ("def", "v1::None") or (b[0] == "call" and b[1] == "Some" and len(b[2]) == 1) for _p, _g, b in scr[2]):
+        # if let Some(v) = match x { A => Some(a), _ => None } { f(v) } else { e }   ==   match x { A => f(a), _ => e }
+        payload = ("proj", scr, pat.split("(")[0], "0")
+        return ("match", scr[1], [(p, g, els if b == ("def", "v1::None") else rewrite(then, lambda n, b=b: b[2][0] if n == payload else None))
+                                  for p, g, b in scr[2]])
     return _mk_if(_let(pat, scr), then, els)        # matches!(x, PAT) == let PAT = x
 
 
@@ -2640,8 +2730,11 @@ def _show(t):
     return "<?" + str(k) + ">"
 
 
-def subterms(t):
-    """pre-order generator over all sub-terms"""
+def subterms(t, closures=True):
+    """pre-order generator over all sub-terms (closures=False: closure bodies are not entered)"""
+    if not closures:
+        yield from _subterms_outside_closures(t)
+        return
     yield t
     k = t[0]
     if k in ("field", "proj", "elem", "try", "rest", "ret", "break", "repeat"):
